@@ -41,6 +41,9 @@ const (
 	xkIn // IN
 	xkSelect
 	xkLitStart
+	xkIf  // IF
+	xkEnd // END
+	xkAs  // AS
 )
 
 var xkSym = map[string]int{
@@ -50,7 +53,8 @@ var xkSym = map[string]int{
 	"=": xkOp, "!=": xkOp, "<>": xkOp, "<": xkOp, "<=": xkOp, ">": xkOp, ">=": xkOp,
 	"LIKE": xkOp, "IN": xkIn, "BETWEEN": xkOp, "IS": xkOp, "NOT": xkOp, "AND": xkOp, "OR": xkOp, "UNNEST": xkOp,
 	"SELECT": xkSelect,
-	"CASE":   xkLitStart, "IF": xkLitStart, "CAST": xkLitStart, "EXISTS": xkLitStart, "EXTRACT": xkLitStart, "WITH": xkLitStart,
+	"CASE": xkOp, "WHEN": xkOp, "THEN": xkOp, "ELSE": xkOp, "END": xkEnd, "IF": xkIf,
+	"CAST": xkOp, "AS": xkAs, "EXISTS": xkLitStart, "EXTRACT": xkLitStart, "WITH": xkLitStart,
 	"ARRAY": xkLitStart, "STRUCT": xkLitStart, "NEW": xkLitStart, "{": xkLitStart,
 }
 
@@ -81,7 +85,7 @@ func xkOf(t *token.Token) int {
 
 func xOperandEnd(k int) bool {
 	switch k {
-	case xkIdent, xkParam, xkInt, xkFloat, xkString, xkBytes, xkNull, xkTrue, xkFalse, xkRparen, xkRbrack:
+	case xkIdent, xkParam, xkInt, xkFloat, xkString, xkBytes, xkNull, xkTrue, xkFalse, xkRparen, xkRbrack, xkEnd:
 		return true
 	}
 	return false
@@ -109,30 +113,41 @@ func exprTokenOutside(toks []token.Token) bool {
 			if t.IsKeywordLike("SAFE_CAST") || t.IsKeywordLike("REPLACE_FIELDS") {
 				return true
 			}
-			if next == xkLparen && !(prev == xkLbrack && xIsPosKw(t)) {
+			if next == xkLparen && !(prev == xkLbrack && len(stack) > 0 && !stack[len(stack)-1] && xIsPosKw(t)) {
 				return true
 			}
 			if next == xkString && (t.IsKeywordLike("DATE") || t.IsKeywordLike("TIMESTAMP") || t.IsKeywordLike("NUMERIC") || t.IsKeywordLike("JSON")) {
 				return true
 			}
 		}
-		if k == xkLbrack && !xOperandEnd(prev) {
-			return true
+		if k == xkIdent && prev == xkAs && xIsSimpleTypeName(t) && next != xkDot {
+			return true // CAST(… AS <scalar type name>): SimpleType is outside the fragment
 		}
 		if k == xkComma && !(len(stack) > 0 && stack[len(stack)-1]) {
 			return true
 		}
 		switch k {
 		case xkLparen:
-			stack = append(stack, prev == xkIn)
+			stack = append(stack, prev == xkIn || prev == xkIf)
 		case xkLbrack:
-			stack = append(stack, false)
+			stack = append(stack, !xOperandEnd(prev))
 		case xkRparen, xkRbrack:
 			if len(stack) > 0 {
 				stack = stack[:len(stack)-1]
 			}
 		}
 		prev = k
+	}
+	return false
+}
+
+var xSimpleTypes = []string{"BOOL", "INT64", "FLOAT32", "FLOAT64", "DATE", "TIMESTAMP", "NUMERIC", "STRING", "BYTES", "JSON", "TOKENLIST"}
+
+func xIsSimpleTypeName(t *token.Token) bool {
+	for _, n := range xSimpleTypes {
+		if t.IsIdent(n) {
+			return true
+		}
 	}
 	return false
 }
@@ -212,6 +227,56 @@ func exprSexp(e ast.Node) (s string, ok bool) {
 			}
 			ok = false
 			return "?"
+		case *ast.CaseExpr:
+			opt := func(x ast.Expr) string {
+				if x == nil {
+					return "-"
+				}
+				return d(x)
+			}
+			var sb strings.Builder
+			sb.WriteString("(case " + opt(n.Expr))
+			for _, w := range n.Whens {
+				sb.WriteString(" (when " + d(w.Cond) + " " + d(w.Then) + ")")
+			}
+			if n.Else == nil {
+				sb.WriteString(" -)")
+			} else {
+				sb.WriteString(" " + d(n.Else.Expr) + ")")
+			}
+			if len(n.Whens) == 0 {
+				ok = false
+			}
+			return sb.String()
+		case *ast.IfExpr:
+			return "(if " + d(n.Expr) + " " + d(n.TrueResult) + " " + d(n.ElseResult) + ")"
+		case *ast.CastExpr:
+			if n.Safe {
+				ok = false
+			}
+			switch t := n.Type.(type) {
+			case *ast.NamedType:
+				var sb strings.Builder
+				sb.WriteString("(cast " + d(n.Expr) + " (named")
+				for _, id := range t.Path {
+					sb.WriteString(" " + hx(id.Name))
+				}
+				sb.WriteString("))")
+				return sb.String()
+			}
+			ok = false
+			return "?"
+		case *ast.ArrayLiteral:
+			if !n.Array.Invalid() || n.Type != nil {
+				ok = false
+			}
+			var sb strings.Builder
+			sb.WriteString("(array")
+			for _, x := range n.Values {
+				sb.WriteString(" " + d(x))
+			}
+			sb.WriteString(")")
+			return sb.String()
 		}
 		ok = false
 		return "?"
@@ -417,6 +482,43 @@ func exprYield(n ast.Node) []string {
 		case *ast.SubscriptSpecifierKeyword:
 			return cat(exprYield(n.Expr), kw("["), []string{"<ident>:" + hx(string(ix.Keyword))}, kw("("), exprYield(ix.Expr), kw(")", "]"))
 		}
+	case *ast.CaseExpr:
+		out := kw("CASE")
+		if n.Expr != nil {
+			out = append(out, exprYield(n.Expr)...)
+		}
+		for _, w := range n.Whens {
+			out = cat(out, kw("WHEN"), exprYield(w.Cond), kw("THEN"), exprYield(w.Then))
+		}
+		if n.Else != nil {
+			out = cat(out, kw("ELSE"), exprYield(n.Else.Expr))
+		}
+		return append(out, "END:-")
+	case *ast.IfExpr:
+		return cat(kw("IF", "("), exprYield(n.Expr), kw(","), exprYield(n.TrueResult), kw(","), exprYield(n.ElseResult), kw(")"))
+	case *ast.CastExpr:
+		var ty []string
+		switch t := n.Type.(type) {
+		case *ast.NamedType:
+			for i, id := range t.Path {
+				if i > 0 {
+					ty = append(ty, ".:-")
+				}
+				ty = append(ty, "<ident>:"+hx(id.Name))
+			}
+		default:
+			ty = []string{"?"}
+		}
+		return cat(kw("CAST", "("), exprYield(n.Expr), kw("AS"), ty, kw(")"))
+	case *ast.ArrayLiteral:
+		out := kw("[")
+		for i, x := range n.Values {
+			if i > 0 {
+				out = append(out, ",:-")
+			}
+			out = append(out, exprYield(x)...)
+		}
+		return append(out, "]:-")
 	}
 	return []string{"?"}
 }
